@@ -11,7 +11,7 @@ ASSUME DecEq(d(TRUE, <<0>>, <<>>, FALSE, <<>>), d(FALSE, <<0>>, <<0>>, FALSE, <<
 ASSUME DecCmp(d(FALSE, <<9, 9>>, <<>>, FALSE, <<>>), d(FALSE, <<1>>, <<>>, FALSE, <<2>>)) = -1     \* 99 < 1e2
 ASSUME DecCmp(d(TRUE, <<2>>, <<>>, FALSE, <<>>), d(TRUE, <<1>>, <<5>>, FALSE, <<>>)) = -1          \* -2 < -1.5
 ASSUME DecCmp(d(FALSE, <<1>>, <<0, 0, 1>>, FALSE, <<>>), d(FALSE, <<1>>, <<>>, FALSE, <<>>)) = 1   \* 1.001 > 1
-ASSUME FitsInt64(MaxInt64) /\ ~FitsInt64(MinInt64Mag) /\ FitsInt64([MinInt64Mag EXCEPT !.neg = TRUE])
+ASSUME FitsInt64(MaxInt64) /\ ~FitsInt64(MinInt64Mag) /\ FitsInt64([MaxInt64 EXCEPT !.neg = TRUE])
 ASSUME Utf8(8364) = <<226, 130, 172>> /\ Utf8(128512) = <<240, 159, 152, 128>> /\ Utf8(233) = <<195, 169>>
 ASSUME LET s == PStr(<<34, 92, 117, 68, 56, 51, 68, 92, 117, 68, 69, 48, 48, 34>>, 1) IN s.a = <<240, 159, 152, 128>> /\ s.b = s.a
 ASSUME LET s == PStr(<<34, 92, 117, 68, 56, 51, 68, 34>>, 1) IN s.a = <<237, 160, 189>> /\ s.b = <<239, 191, 189>>
